@@ -103,6 +103,8 @@ Def(n, e)   == [k |-> "def", n |-> n, e |-> e]            \* top-level or intern
 Body(ds, e) == [k |-> "body", ds |-> ds, e |-> e]         \* internal defines then expression
 Reset(e)    == [k |-> "reset", e |-> e]                   \* (reset e)
 Shift(n, e) == [k |-> "shift", n |-> n, e |-> e]          \* (shift n e)
+MkParam(e)  == [k |-> "mkparam", e |-> e]                     \* (make-parameter e)
+Parameterize(p, v, b) == [k |-> "parameterize", p |-> p, v |-> v, b |-> b]   \* (parameterize ([p v]) b)
 P(op, as)   == App(Var(op), as)                           \* call of a (global) primitive
 I(n)        == C(IntV(n))
 \* an iteration count that is SMALL in the reference machine and LARGE in the rendered program
@@ -126,7 +128,7 @@ MidHalf     == [k |-> "cmidhalf"]
               "string->symbol", "symbol->string", "number->string", "string=?", "list->vector", "vector->list",
               "foldr", "member", "assoc", "abs", "min", "max", "quotient", "remainder", "modulo", "even?", "odd?",
               "string?", "vector?", "boolean?", "hash?", "list?", "char?",
-              "%mc", "%mc-set!", "%abort", "%reset", "%shift"}
+              "%mc", "%mc-set!", "%abort", "%reset", "%shift", "%mkparam", "%parameterize"}
 
 -----
 (* Rendering: Scheme source text and Steel's printed form of values *)
@@ -209,6 +211,8 @@ R(e) ==
     [] e.k = "withhandler" -> "(with-handler " \o R(e.h) \o " " \o R(e.e) \o ")"
     [] e.k = "reset" -> "(reset " \o R(e.e) \o ")"
     [] e.k = "shift" -> "(shift " \o Nm(e.n) \o " " \o R(e.e) \o ")"
+    [] e.k = "mkparam" -> "(make-parameter " \o R(e.e) \o ")"
+    [] e.k = "parameterize" -> "(parameterize ([" \o R(e.p) \o " " \o R(e.v) \o "]) " \o R(e.b) \o ")"
     [] e.k = "def" -> "(define " \o Nm(e.n) \o " " \o R(e.e) \o ")"
     [] e.k = "body" -> RSeq(e.ds) \o " " \o R(e.e)
     [] OTHER -> "#<?expr>"
@@ -237,6 +241,8 @@ Mentions(e, n) ==
                        \/ \E i \in 1..Len(e.cls) : Mentions(e.cls[i][1], n) \/ Mentions(e.cls[i][2], n)
     [] e.k = "withhandler" -> Mentions(e.h, n) \/ Mentions(e.e, n)
     [] e.k \in {"reset", "shift"} -> Mentions(e.e, n)
+    [] e.k = "mkparam" -> Mentions(e.e, n)
+    [] e.k = "parameterize" -> Mentions(e.p, n) \/ Mentions(e.v, n) \/ Mentions(e.b, n)
     [] e.k = "def" -> Mentions(e.e, n)
     [] e.k = "body" -> MentionsAny(e.ds, n) \/ Mentions(e.e, n)
     [] OTHER -> FALSE
@@ -460,7 +466,20 @@ Prelude == << <<Def("x", I(0)), Def("y", I(1))>> >>
 \*   (*reset thunk) = (let ([mc (mc)]) (call/cc (lambda (k) (set-mc! (lambda (v) (set-mc! mc) (k v))) (*abort thunk))))
 \*   (*shift f)     = (call/cc (lambda (k) (*abort (lambda () (f (lambda (v) (reset (k v))))))))
 \* The three closures and the cell live at reserved store locations 1..4.
-RtEnv == [n \in PrimNames |-> CASE n = "%abort" -> 2 [] n = "%reset" -> 3 [] n = "%shift" -> 4 [] OTHER -> 0]
+\* Parameter objects (R7RS 4.2.6, the reference implementation with dynamic-wind): a parameter is a procedure over a
+\* cell; parameterize evaluates the parameter and the value ONCE, then swaps value and cell on every entry to and exit
+\* from the body (so a re-entry through a continuation re-installs the value the body last saw):
+\*   (%mkparam v)            = (let ([cell (box v)]) (lambda args (if (null? args) (unbox cell) (set-box! cell (car args)))))
+\*   (%parameterize p v thunk) = (let ([swap (lambda () (let ([t (p)]) (p v) (set! v t)))]) (dynamic-wind swap thunk swap))
+RtEnv == [n \in PrimNames |-> CASE n = "%abort" -> 2 [] n = "%reset" -> 3 [] n = "%shift" -> 4
+                                  [] n = "%mkparam" -> 5 [] n = "%parameterize" -> 6 [] OTHER -> 0]
+MkParamLam == Lam(<<"v">>, "", Let(<< <<"cell", App(Var("box"), <<Var("v")>>)>> >>,
+                Lam(<< >>, "args", If(App(Var("null?"), <<Var("args")>>), App(Var("unbox"), <<Var("cell")>>),
+                                      App(Var("set-box!"), <<Var("cell"), App(Var("car"), <<Var("args")>>)>>)))))
+ParameterizeLam == Lam(<<"p", "v", "thunk">>, "",
+                     Let(<< <<"swap", Lam(<< >>, "", Let(<< <<"t", App(Var("p"), << >>)>> >>,
+                                                        Begin(<<App(Var("p"), <<Var("v")>>), SetE("v", Var("t"))>>)))>> >>,
+                         App(Var("dynamic-wind"), <<Var("swap"), Var("thunk"), Var("swap")>>)))
 AbortLam == Lam(<<"thunk">>, "", App(App(Var("%mc"), << >>), <<App(Var("thunk"), << >>)>>))
 ResetLam == Lam(<<"thunk">>, "", Let(<< <<"mc", App(Var("%mc"), << >>)>> >>,
               App(Var("call/cc"), <<Lam(<<"k">>, "",
@@ -470,7 +489,7 @@ ShiftLam == Lam(<<"f">>, "", App(Var("call/cc"), <<Lam(<<"k">>, "",
               App(Var("%abort"), <<Lam(<< >>, "", App(Var("f"), <<Lam(<<"v">>, "",
                   App(Var("%reset"), <<Lam(<< >>, "", App(Var("k"), <<Var("v")>>))>>))>>))>>))>>))
 MkClo(lam) == [k |-> "clo", ps |-> lam.ps, rest |-> lam.rest, b |-> lam.b, env |-> RtEnv]
-RtStore == <<PrimV("%no-reset"), MkClo(AbortLam), MkClo(ResetLam), MkClo(ShiftLam)>>
+RtStore == <<PrimV("%no-reset"), MkClo(AbortLam), MkClo(ResetLam), MkClo(ShiftLam), MkClo(MkParamLam), MkClo(ParameterizeLam)>>
 InitCommon ==
   /\ ui = 0 /\ fi = 0 /\ mode = "ret" /\ ctrl = Void
   /\ env = RtEnv /\ store = RtStore /\ kont = << >> /\ winders = << >>
@@ -674,6 +693,9 @@ EvalStep ==
             /\ UNCHANGED <<env, store, kont, mode>>
        [] e.k = "reset" -> /\ ctrl' = App(Var("%reset"), <<Lam(<< >>, "", e.e)>>) /\ UNCHANGED <<env, store, kont, mode>>
        [] e.k = "shift" -> /\ ctrl' = App(Var("%shift"), <<Lam(<<e.n>>, "", e.e)>>) /\ UNCHANGED <<env, store, kont, mode>>
+       [] e.k = "mkparam" -> /\ ctrl' = App(Var("%mkparam"), <<e.e>>) /\ UNCHANGED <<env, store, kont, mode>>
+       [] e.k = "parameterize" -> /\ ctrl' = App(Var("%parameterize"), <<e.p, e.v, Lam(<< >>, "", e.b)>>)
+                                  /\ UNCHANGED <<env, store, kont, mode>>
        [] e.k = "withhandler" ->   \* handler expression first, then the body under the handler
             /\ ctrl' = e.h /\ kont' = Push([f |-> "wh1", e |-> e.e, env |-> env])
             /\ UNCHANGED <<env, store, mode>>
